@@ -64,8 +64,32 @@ pub fn run(ctx: &mut Ctx) {
                 if id {
                     ctx.violation(&format!("variant-identical/{:?}", act), &format!("obscuring the present element at {} ({:?}) gives a result reported identical to the original", crate::pos::path_str(path), target.kind), J::obj(vec![("orig", jhex(&e)), ("variant", jhex(&v))]));
                 }
-                if fam.len() < 14 {
+                if fam.len() < 12 {
                     fam.push((format!("{:?}@{}", act, crate::pos::path_str(path)), v));
+                }
+            }
+        }
+        // position-level variants: exactly ONE position elided, also when the same digest occurs
+        // elsewhere (elide_* works per digest, so these are built by decoding the expected bytes)
+        if !t.has_obscured() {
+            let dup: Vec<&(crate::pos::Path, &T)> = flat.iter().filter(|(p, n)| !p.is_empty() && flat.iter().filter(|(_, m)| m.digest == n.digest).count() >= 2).collect();
+            let mut picks: Vec<crate::pos::Path> = dup.iter().take(3).map(|(p, _)| p.clone()).collect();
+            if flat.len() > 1 {
+                picks.push(flat[rng.range(1, flat.len() - 1)].0.clone());
+            }
+            for path in picks {
+                let mut t2 = t.clone();
+                {
+                    let mut cur = &mut t2;
+                    for e2 in &path {
+                        let idx = cur.edges().iter().position(|x| x == e2).unwrap();
+                        cur = &mut cur.children[idx];
+                    }
+                    *cur = T { kind: Kind::Elided, digest: cur.digest, leaf: None, kv: None, children: vec![] };
+                }
+                if let Ok(v) = Envelope::try_from_cbor_data(gen::tree_bytes(&t2)) {
+                    ctx.count(if dup.iter().any(|(p, _)| **p == path) { "position_variants_of_repeated_digest" } else { "position_variants" });
+                    fam.push((format!("pos-elided@{}", crate::pos::path_str(&path)), v));
                 }
             }
         }
